@@ -13,6 +13,10 @@ repo=sys.argv[1]; here=sys.argv[2]
 rep={}
 for f in sorted(glob.glob(here+'/harness/*.go')):
     rep[os.path.join(repo,'fhirpath/zz_verifharness',os.path.basename(f))]=f
+# verif-tagged hook files injected into packages of the repository (harness/hooks/<pkg path with __>/file.go)
+for f in sorted(glob.glob(here+'/harness/hooks/*/*.go')):
+    pkg=os.path.basename(os.path.dirname(f)).replace('__','/')
+    rep[os.path.join(repo,pkg,os.path.basename(f))]=f
 print(json.dumps({"Replace":rep}))
 PY
 cd "$REPO"
